@@ -555,7 +555,7 @@ static void schedule (bool cur_can_continue, bool is_yield) {
 		g.drained_runs_flag = 1;
 		TRACE ("--- drain phase ---");
 	}
-	if (g.draining && g.steps > g.B1 + g.B2) {
+	if (g.draining && g.steps > g.B1 + g.B2 + (nsim_cfg.extra_steps > 0 ? nsim_cfg.extra_steps : 0)) {
 		end_run (RV_NO_PROGRESS);
 	}
 	if (is_yield) g.spin_yields++;
